@@ -812,6 +812,8 @@ class PyEval(MiniEval):
                 # would make every later conclusion wrong)
                 raise Unsupported(f"method {type(recv).__name__}.{m}")
             return Opaque(ast.unparse(node)[:50])
+        if fn == "bool" and len(node.args) == 1 and not node.keywords:
+            return self.truth(A()[0])
         if fn in ("str", "repr") and len(node.args) == 1 and not node.keywords:
             v = A()[0]
             if isinstance(v, Tok):
